@@ -134,8 +134,11 @@ def freeze(x):
     return x
 
 
+_CTX = {"single": False}  # precision of the case being evaluated (scalars / exponent factors lose the dtype)
+
+
 def _tol(*dtypes):
-    single = any(str(d) in ("float32", "complex64") for d in dtypes)
+    single = _CTX["single"] or any(str(d) in ("float32", "complex64") for d in dtypes)
     return (2e-3, 2e-4) if single else (1e-7, 1e-9)
 
 
@@ -499,6 +502,10 @@ def zoo(qtn, quick):
     def _(rng, dt):
         return qtn.Tensor(rnd(rng, (2, 2, 2), dt), ("a", "e", "c"), tags=("X",))
 
+    @reg("IsoTensor")
+    def _(rng, dt):
+        return qtn.IsoTensor(rnd(rng, (2, 3, 2), dt), ("a", "e", "c"), tags=("X",), left_inds=("a", "e"))
+
     @reg("Tensor-repeated")
     def _(rng, dt):
         return qtn.Tensor(rnd(rng, (2, 2, 3), dt), ("a", "a", "c"), tags=("X",))
@@ -736,7 +743,7 @@ def _(x, rng, qtn, dt):
     return [C([o[0]]), C(o[:2])]
 
 
-@args_for("Tensor.fuse")
+@args_for("Tensor.fuse", "IsoTensor.fuse")
 def _(x, rng, qtn, dt):
     need(len(x.inds) >= 2 and len(set(x.inds)) == len(x.inds))
     i = x.inds
@@ -972,7 +979,11 @@ def exercise(cx, qtn, rname, build, rec, dt, nperm, seed_base):
         freeze(case.kw)
         holder = {}
 
+        single = dt in ("float32", "complex64")
+
         def t_plain(case=case, holder=holder):
+            _CTX["single"] = single
+
             def afp():
                 return fingerprint(([a for k, a in enumerate(case.args) if k not in case.mut],
                                     {k: v for k, v in case.kw.items() if k not in case.mut}))
@@ -1017,6 +1028,7 @@ def exercise(cx, qtn, rname, build, rec, dt, nperm, seed_base):
         r = holder["r"]
 
         def t_pair(case=case, r=r):
+            _CTX["single"] = single
             y = x.copy()
             f0 = fingerprint(x)
             r_ = call_inplace(y, rec, case)
@@ -1046,6 +1058,7 @@ def exercise(cx, qtn, rname, build, rec, dt, nperm, seed_base):
             kp = freeze(permute_axes(case.kw, prng))
 
             def t_perm(xp=xp, ap=ap, kp=kp, case=case, r=r):
+                _CTX["single"] = single
                 c2 = Case(*ap, **kp).flag(mut=case.mut)
                 rp = call_plain(xp, rec, c2)
                 return same_labelled_value(r, rp, "f(x) vs f(x with permuted axes)", loose=case.loose,
@@ -2003,7 +2016,9 @@ def binary_ops(cx):
                 prng = np.random.default_rng([cx.seed, seed, sum(map(ord, dt + name))])
                 perms = [freeze(permute_axes(operands, prng)) for _ in range(nperm + (0 if cx.quick else 1))]
 
-                def thunk(operands=operands, fn=fn, ref=ref, perms=perms, frame=frame):
+                def thunk(operands=operands, fn=fn, ref=ref, perms=perms, frame=frame, dt=dt):
+                    _CTX["single"] = dt in ("float32", "complex64")
+
                     def weak(ops):
                         return [(sorted(outer_of(o)), sorted(tuple(sorted(map(str, t.tags))) for t in o.tensor_map.values()),
                                  dense_value(o)[1]) for o in ops]
